@@ -234,7 +234,7 @@ func verifC19RawCall(ctx context.Context, req *conformancev1.ClientCompatRequest
 // receiver got (side 1: the reference client's payloads; full duplex: the server answers each
 // request before it reads the next), else -2.
 func verifC19Stream(args []vsx) vsx {
-	if len(args) != 8 || args[1].k != 'l' || len(args[1].l) < 2 || len(args[1].l) > 4 {
+	if len(args) != 8 || args[1].k != 'l' || len(args[1].l) < 2 || len(args[1].l) > 16 {
 		return vErr("bad-case")
 	}
 	for i, a := range args {
@@ -284,6 +284,12 @@ func verifC19Stream(args []vsx) vsx {
 				return vErr("bad-case")
 			}
 		}
+	}
+	if side == 0 && sender == 0 && streamType != fullDuplex && int64(len(offs))*(int64(serverReceiveLimit)+64) > int64(clientReceiveLimit) {
+		// the reference server echoes every request of a client stream / half-duplex stream in ONE response
+		// message, which the reference client measures against its own limit: longer streams of sized
+		// requests come from the plain HTTP senders
+		return vErr("bad-case")
 	}
 	verifC19.mu.Lock()
 	defer verifC19.mu.Unlock()
